@@ -196,6 +196,15 @@ func (p *Prog) Flatten(anchors map[string]bool) ([]string, error) {
 		if !anchors[p.AnchorName(f)] && f.Parent() == nil {
 			continue
 		}
+		// (instances of generic functions are left as they are: the rule sets
+		// look at the generic bodies)
+		top := f
+		for top.Parent() != nil {
+			top = top.Parent()
+		}
+		if o := top.Origin(); o != nil && o != top {
+			continue
+		}
 		for again := true; again; {
 			again = false
 			for _, b := range f.Blocks {
@@ -204,13 +213,17 @@ func (p *Prog) Flatten(anchors map[string]bool) ([]string, error) {
 					if !ok || again {
 						continue
 					}
-					callee := g.Call.StaticCallee()
-					if callee == nil || callee.Parent() != nil || !inMod(callee) || recursive[callee] || anchors[p.AnchorName(callee)] || callee.Blocks == nil {
-						continue
+					if len(g.Call.Args) == 0 {
+						continue // go func() { ... }(): the form wanted
 					}
-					if _, isLit := g.Call.Value.(*ssa.MakeClosure); isLit {
-						continue
+					if callee := g.Call.StaticCallee(); callee != nil && callee.Parent() == nil {
+						// a declared function: only helpers, not the functions rules are anchored at
+						if !inMod(callee) || recursive[callee] || anchors[p.AnchorName(callee)] || callee.Blocks == nil {
+							continue
+						}
 					}
+					// (a literal with parameters is rehomed whatever its name: the
+					// literal that replaces it takes its place)
 					w := f.RehomeGo(g)
 					if w == nil {
 						continue
@@ -224,7 +237,7 @@ func (p *Prog) Flatten(anchors map[string]bool) ([]string, error) {
 					}
 					p.srcFuncs = append(p.srcFuncs, w)
 					funcs = append(funcs, w)
-					log = append(log, fmt.Sprintf("%s <- go %s", p.FuncName(f), p.AnchorName(callee)))
+					log = append(log, fmt.Sprintf("%s <- go %s", p.FuncName(f), w.Name()))
 					again = true
 				}
 			}
